@@ -35,10 +35,12 @@ fn cexs(e: &Exs) -> String {
 }
 
 fn gen_corpus(rng: &mut Rng) -> String {
-    let surf = ["a", "b", "東京", " ", "\u{3000}", "EOS", "", "x y", "é", "😀", "\r", "q\"", "EOS "];
+    let surf = ["a", "b", "東京", " ", "\u{3000}", "EOS", "", "x y", "é", "😀", "\r", "q\"", "EOS ", "\u{feff}", "\u{feff}a"];
     let feat = ["名詞,一般", "f", "", "g ", "h\u{3000}", "EOS", "a,b,\"c\"", "x\ry", "*"];
     let nl = if rng.chance(1, 5) { "\r\n" } else { "\n" };
     let mut s = String::new();
+    // 1 corpus in 12 starts with a token whose surface begins with U+FEFF (not a byte-order mark here)
+    if rng.chance(1, 12) { s.push('\u{feff}'); s.push_str(&format!("{}\tf{}EOS{}", *rng.pick(&["", "a", "東京"][..]), nl, nl)); }
     let ns = rng.below(5);
     for _ in 0..ns {
         let nt = rng.below(4);
